@@ -3,6 +3,10 @@ package specs
 import "verif/sim/kit"
 
 func init() {
+	// lock sites of the executor's shared error latch are scheduling points (kit/instrument): a worker can be
+	// held between committing its transaction and reporting its error, the dispatcher between reading the
+	// latch and acting on it
+	kit.EngineInstrument["execsim"] = []string{"service/transition_pe.go", "service/state/worldvirtualstate.go"}
 	real := []string{
 		"service.NewInitTransition / NewTransition / Execute / FinalizeTransition (transition.go doExecute, receipt aggregation, treasury credit)",
 		"service/transition_se.go executeTxsSequential (retry loop) and service/transition_pe.go executeTxsConcurrent (dispatcher, executionContext)",
